@@ -46,7 +46,7 @@ BRANCHES = [
     "Wavefunction.dicke_state:enumerate",
 ]
 EXHAUSTIVE = {"dicke": "all (n, k) with 1 <= n <= 10, 0 <= k <= n"}
-BUDGET = {"quick": (4, 30, 350), "thorough": (16, 150, 100000)}
+BUDGET = {"quick": (4, 40, 350), "thorough": (16, 150, 100000)}
 
 ISCLOSE_BAND = 1e-8 + 1e-5  # np.isclose(x, 1.0): |x-1| <= atol + rtol*1
 _TMP = None
